@@ -645,18 +645,43 @@ pub fn crash_histories(tier: &str) -> Vec<CrashHistory> {
             ],
         });
     }
+    let big = |b: bool| vec![Op::Put { k: 0, big: b }, Op::Put { k: 1, big: b }];
+    let maint: Vec<(&str, Op)> = vec![
+        ("F", fl.clone()),
+        ("FL", Op::FlushLeveled { w: Wm::Tight, p: 0 }),
+        ("M", Op::Seq { ops: vec![fl.clone(), Op::Major { w: Wm::Tight, target: u64::MAX }] }),
+        ("C", Op::Clear),
+        ("D", Op::DropRange { lo: Bnd::Inc(b"a".to_vec()), hi: Bnd::Inc(b"a".to_vec()) }),
+        ("I", Op::Ingest { items: vec![(0, IKind::Val), (1, IKind::Tomb)] }),
+        ("O", Op::Reopen),
+    ];
+    if tier == "quick" {
+        // every sequence of two maintenance steps around a fixed write pattern, standard and blob
+        for blob in [false, true] {
+            for (n1, x1) in &maint {
+                for (n2, x2) in &maint {
+                    let mut ops = big(blob);
+                    ops.push(x1.clone());
+                    ops.push(Op::Put { k: 0, big: blob });
+                    ops.push(Op::Del { k: 1 });
+                    ops.push(x2.clone());
+                    let cfg = if blob {
+                        let mut c = c4.clone().with_blob(16);
+                        if let Some(b) = &mut c.blob {
+                            b.staleness = 0.0;
+                            b.age_cutoff = 1.0;
+                        }
+                        c
+                    } else {
+                        TreeCfg::small(ab.clone())
+                    };
+                    v.push(CrashHistory { name: format!("gen2-{}-{n1}{n2}", if blob { "blob" } else { "std" }), cfg, ops });
+                }
+            }
+        }
+    }
     if tier != "quick" {
         // every sequence of three maintenance steps between a fixed write pattern, standard and blob
-        let big = |b: bool| vec![Op::Put { k: 0, big: b }, Op::Put { k: 1, big: b }];
-        let maint: Vec<(&str, Op)> = vec![
-            ("F", fl.clone()),
-            ("FL", Op::FlushLeveled { w: Wm::Tight, p: 0 }),
-            ("M", Op::Seq { ops: vec![fl.clone(), Op::Major { w: Wm::Tight, target: u64::MAX }] }),
-            ("C", Op::Clear),
-            ("D", Op::DropRange { lo: Bnd::Inc(b"a".to_vec()), hi: Bnd::Inc(b"a".to_vec()) }),
-            ("I", Op::Ingest { items: vec![(0, IKind::Val), (1, IKind::Tomb)] }),
-            ("O", Op::Reopen),
-        ];
         for blob in [false, true] {
             for (n1, x1) in &maint {
                 for (n2, x2) in &maint {
